@@ -200,6 +200,30 @@ int main(void) {
 }
 """
 
+# every native scalar type (typemap.py gives each its own LUA_type / LUA_pop / LUA_push): as an argument of a function
+# with a default argument (the wrapper then tests the Lua type of each value) and as a result.  The library logs
+# an unsigned argument through its signed counterpart, so a negative Lua integer compares equal.
+LKINDS = [("short", "short", "int", "(long)a"), ("ushort", "unsigned short", "int", "(long)(short)a"),
+          ("uint", "unsigned int", "int", "(long)(int)a"), ("ulong", "unsigned long", "int", "(long)a"),
+          ("ullong", "unsigned long long", "int", "(long)a"), ("float", "float", "dbl", "(double)a"),
+          ("i8", "int8_t", "int", "(long)a"), ("i16", "int16_t", "int", "(long)a"), ("i32", "int32_t", "int", "(long)a"),
+          ("i64", "int64_t", "int", "(long)a"), ("u8", "uint8_t", "int", "(long)(int8_t)a"),
+          ("u16", "uint16_t", "int", "(long)(int16_t)a"), ("u32", "uint32_t", "int", "(long)(int32_t)a"),
+          ("u64", "uint64_t", "int", "(long)a")]
+_y, _h, _c = [], [], []
+for _tag, _T, _ty, _log in LKINDS:
+    _y.append("- decl: int k%s(%s a, int b = 1)\n- decl: %s r%s(int a)\n" % (_tag, _T, _T, _tag))
+    _h.append("int k%s(%s a, int b = 1);\n%s r%s(int a);\n" % (_tag, _T, _T, _tag))
+    _vt = "vt_dbl" if _ty == "dbl" else "vt_int"
+    _c.append('int k%(g)s(%(T)s a, int b) { IN("k%(g)s(%(T)s,int)"); %(vt)s(%(log)s); vt_int(b); vt_end(); int rv = (int)a * 2 + b; '
+              'OUT("k%(g)s(%(T)s,int)"); vt_int(rv); vt_end(); return rv; }\n'
+              '%(T)s r%(g)s(int a) { IN("r%(g)s(int)"); vt_int(a); vt_end(); %(T)s rv = (%(T)s)((a < 0 ? -a : a) %% 100 + 1); '
+              'OUT("r%(g)s(int)"); %(vt)s(%(rlog)s); vt_end(); return rv; }\n'
+              % dict(g=_tag, T=_T, vt=_vt, log=_log, rlog=_log.replace(")a", ")rv")))
+YAML = YAML.replace("- decl: class Cls\n", "".join(_y) + "- decl: class Cls\n", 1)
+HPP = HPP.replace("class Cls {", "".join(_h) + "class Cls {", 1).replace("#include <string>", "#include <string>\n#include <stdint.h>\n#include <stddef.h>")
+CPP = CPP.replace("Cls::Cls(int v)", "".join(_c) + "Cls::Cls(int v)", 1)
+
 # name, table, self, max args, C++ candidates in generation order: (target, [param ty], [lua type], result ty, ndefault arities)
 FUNCS = [
     ("f1", "module", 0, [("f1(int,double,bool)", ["int", "dbl", "bool"], "int", 0)]),
@@ -222,10 +246,14 @@ FUNCS = [
     ("scale", "Cls.metatable", 1, [("Cls::scale(int)", ["int"], "int", 1)]),
     ("mix", "Cls.metatable", 1, [("Cls::mix(int,double)", ["int", "dbl"], "int", 0)]),
 ]
+for _tag, _T, _ty, _log in LKINDS:
+    FUNCS.insert(-6, ("k" + _tag, "module", 0, [("k%s(%s,int)" % (_tag, _T), [_ty, "int"], "int", 1)]))
+    FUNCS.insert(-6, ("r" + _tag, "module", 0, [("r%s(int)" % _tag, ["int"], _ty, 0)]))
 LT = {"int": "number", "dbl": "number", "str": "string", "bool": "boolean", "obj": "userdata"}
 DEFAULTS = {"f13(int,int)": [{"t": "i", "v": [3]}, {"t": "i", "v": [4]}],
             "f17(double,int,bool)": [None, {"t": "i", "v": [7]}, {"t": "b", "v": [1]}],
             "Cls::scale(int)": [{"t": "i", "v": [2]}],
+            **{"k%s(%s,int)" % (_tag, _T): [None, {"t": "i", "v": [1]}] for _tag, _T, _ty, _log in LKINDS},
             "f19(double,int,int,int)": [None, None, {"t": "i", "v": [0]}, {"t": "i", "v": [1]}]}
 
 
